@@ -1671,7 +1671,9 @@ else:
           return value
       get.__doc__ = dict.get.__doc__
       def clear(self):
-          [self.pop(k) for k in self.keys()] # better delete table, add empty ?
+          sql = "delete from %s" % self.__state__['id'] # all rows, in one step
+          self._engine.execute(sql)
+          self._conn.commit()
           return
       clear.__doc__ = dict.clear.__doc__
       def copy(self, name=None): #XXX: always None? or allow other settings?
